@@ -83,9 +83,7 @@ def gen_duration(rng):
 def run_shard(ctx):
     rng = ctx.rng
     res = ctx.res
-    clock_name, epoch = ctx.clock_for_shard()
-    tzs = ['UTC'] if not ctx.thorough() else ['UTC', 'America/New_York', 'Asia/Kolkata', 'Pacific/Chatham']
-    tz = tzs[(ctx.shard // len(ctx.clocks())) % len(tzs)]
+    clock_name, epoch, tz = ctx.env_for_shard()
     drv = ctx.driver(epoch, tz, rw=True)
     zones = sorted(lex.admissible_zones('en').items())
     table = lex.zones()
